@@ -188,3 +188,9 @@ def C07_joint_imp_card_comment(case, params):
     if not hit:
         return False
     return rt.c07_check(dict(c, text="\n".join(out)), case.get("prog", [])) is None
+
+
+def C07_rotation_after_comment(case, params):
+    import rt
+    import findings_rt as FR
+    return FR.rotation_after_comment(case, rt.c07_check)
